@@ -10,38 +10,7 @@ def run(ctx):
     kinds = schema.HANDLE_KINDS
     progs = tc.mc_replays(ctx, kinds, 4, workers=14, maxref=3 if not th else 4, salts=(1,) if not th else (1, 2))
     rnd = tc.random_programs(rng, kinds, 3000 if th else 500, [2, 3, 5, 8, 13, 40, 200 if th else 60], maxcalls=5)
-    # far handles: tables larger than 64 KiB, with late handles used by later nodes (offsets beyond 16 bits)
-    far = []
-    src = schema.Rand(rng)
-    g = schema.TableGen(src, "RIMT")
-    for i in range(700 if not th else 1500):
-        g.ops.append({"op": "add_iommu", "a": {"id": src.scalar(2), "wires": [{"num": src.scalar(4), "level": True, "high": False, "aplic": src.scalar(2)}] * 10}, "calls": []})
-        g.h["iommu"].append(len(g.ops))
-        if i % 100 == 99:
-            g.h["iommu"] = g.h["iommu"][-3:]
-            g.add("add_pcie_root_complex")
-            g.add("add_platform")
-    far.append(dict(g.program(), observe_every=350, full_limit=1 << 22))
-    g = schema.TableGen(src, "PPTT")
-    g.add("add_cache")
-    for i in range(330 if not th else 900):
-        g.ops.append({"op": "add_processor", "a": {"parent": g.h["proc"][-1] if g.h["proc"] else 0, "id": src.scalar(4)},
-                      "calls": [{"o": "add_cache", "a": {"ref": g.h["cache"][-1]}}] * 50})
-        g.h["proc"].append(len(g.ops))
-        if i % 60 == 59:
-            g.add("add_cache")
-            g.h["cache"] = g.h["cache"][-1:]
-    far.append(dict(g.program(), observe_every=150, full_limit=1 << 22))
-    g = schema.TableGen(src, "RHCT")
-    for i in range(340 if not th else 900):
-        g.ops.append({"op": "add_isa_string", "a": {"str": [97 + (i % 26)] * (199 + i % 2)}, "calls": []})
-        g.h["isa"].append(len(g.ops))
-        if i % 50 == 49:
-            g.h["isa"] = g.h["isa"][-2:]
-            g.add("add_cmo")
-            g.h["cmo"] = g.h["cmo"][-1:]
-            g.add("add_hart_info")
-    far.append(dict(g.program(), observe_every=170, full_limit=1 << 22))
+    far = tc.far_programs(rng, th)
     programs = progs + rnd + far
     ctx.samples = tc.sample(progs, 2) + tc.sample(rnd, 1)
     ctx.distinct = tc.distinct(programs)
